@@ -285,7 +285,10 @@ func NewHTTPTargeter(src io.Reader, body []byte, hdr http.Header) Targeter {
 		tgt.Body = body
 		tgt.Header = http.Header{}
 		for k, vs := range hdr {
-			tgt.Header[k] = vs
+			// Copy the default values: appending a target's own values to the shared
+			// slice would write into its spare capacity, so that the next target
+			// overwrites the header values of one returned earlier.
+			tgt.Header[k] = append([]string(nil), vs...)
 		}
 
 		tokens := strings.SplitN(line, " ", 2)
